@@ -21,7 +21,7 @@ shutil.copy(f"{src}/demo_{letter}.py", f"{dst}/demo.py")
 agent_meta = {}
 try:
     agent_meta = {}
-    for mf in ("meta.json", "meta2.json", "meta3.json", "meta4.json"):
+    for mf in ("meta.json", "meta2.json", "meta3.json", "meta4.json", "meta5.json"):
         if os.path.exists(f"{src}/{mf}"):
             agent_meta = json.load(open(f"{src}/{mf}")).get(letter, {}) or agent_meta
 except Exception as e:
